@@ -11,6 +11,8 @@ import importlib
 import json
 import multiprocessing as mp
 import os
+import pickle
+import select
 import random
 import shutil
 import subprocess
@@ -56,7 +58,7 @@ def _worker_init():
     sut.load()
 
 
-def execute_case(pid, case):
+def execute_case_here(pid, case):
     """run one case in this process; returns the property module's result.
     A pure function of `case` and the code under test."""
     mod = prop_module(pid)
@@ -65,6 +67,65 @@ def execute_case(pid, case):
         return mod.run_case(case, root)
     finally:
         shutil.rmtree(root, ignore_errors=True)
+
+
+def execute_case(pid, case, timeout=600):
+    """run one case in a forked child, so that every simulated run starts
+    from the same pristine process image: process-global state a run leaves
+    behind (class attributes, module globals, caches) can never leak into
+    the next run, and a replay in a fresh process sees what the batch saw."""
+    if os.environ.get("SIMCKL_NOFORK"):
+        return execute_case_here(pid, case)
+    rfd, wfd = os.pipe()
+    sys.stdout.flush()
+    sys.stderr.flush()
+    child = os.fork()
+    if child == 0:
+        code = 0
+        try:
+            os.close(rfd)
+            try:
+                data = pickle.dumps(("ok", execute_case_here(pid, case)))
+            except HarnessError as e:
+                data = pickle.dumps(("harness", str(e)))
+            except BaseException as e:   # noqa: BLE001
+                data = pickle.dumps(
+                    ("err", "".join(traceback.format_exception(e))[-3000:]))
+            with os.fdopen(wfd, "wb") as f:
+                f.write(data)
+        except BaseException:   # noqa: BLE001
+            code = 3
+        finally:
+            os._exit(code)
+    os.close(wfd)
+    chunks = []
+    deadline = time.time() + timeout
+    with os.fdopen(rfd, "rb") as f:
+        while True:
+            left = deadline - time.time()
+            if left <= 0:
+                break
+            rl, _, _ = select.select([f], [], [], min(left, 5.0))
+            if rl:
+                b = f.read1(1 << 20)
+                if not b:
+                    break
+                chunks.append(b)
+    try:
+        if time.time() >= deadline:
+            os.kill(child, 9)
+    except ProcessLookupError:
+        pass
+    os.waitpid(child, 0)
+    if not chunks:
+        raise RuntimeError("simulated run died or timed out in its child "
+                           "process without a result")
+    kind, val = pickle.loads(b"".join(chunks))
+    if kind == "ok":
+        return val
+    if kind == "harness":
+        raise HarnessError(val)
+    raise RuntimeError("run failed in child process:\n" + val)
 
 
 def _run_chunk(pid, tier, base_seed, ks, keep_cases):
@@ -97,6 +158,7 @@ def _run_chunk(pid, tier, base_seed, ks, keep_cases):
                     "probes": res.get("probes", {}),
                     "steps": res.get("steps", 0),
                     "nops": res.get("nops", 0),
+                    "evals": res.get("evals", 1),
                     "faulty": res.get("faulty", False),
                     "violations": res.get("violations", []),
                     "extra_fps": res.get("extra_fps", [])}
@@ -223,7 +285,7 @@ def minimise(pid, case, sig, budget_s=60):
 # replay
 
 def write_replay(pid, case, violation, tier, minimised):
-    d = os.path.join(VERIF, "replays")
+    d = os.environ.get("SIMCKL_REPLAY_DIR") or os.path.join(VERIF, "replays")
     os.makedirs(d, exist_ok=True)
     sigh = hashlib.sha256(violation["sig"].encode()).hexdigest()[:8]
     path = os.path.join(d, f"{pid}-{case.get('seed', 0)}-{sigh}.json")
@@ -242,7 +304,7 @@ def replay(path):
     with open(path) as f:
         rec = json.load(f)
     pid = rec["property"]
-    res = execute_case(pid, rec["case"])
+    res = execute_case_here(pid, rec["case"])
     want = rec["violation"]["sig"]
     got = [v for v in res.get("violations", []) if v["sig"] == want]
     other = [v for v in res.get("violations", []) if v["sig"] != want]
@@ -444,7 +506,8 @@ def generic_check(pid, tier, base_seed, t0, mod, cfg):
                     "stopped_early_by_wall_cap": stopped_early,
                     "runs_requested": nruns,
                     "reported": reported})
-    print(f"{pid} {tier}: runs={len(rows)} distinct_nontrivial="
+    print(f"{pid} {tier}: runs={len(rows)} evaluations={agg['evals']} "
+          f"distinct_nontrivial="
           f"{agg['distinct_nontrivial']} violations={nviol} "
           f"faults_fired={sum(agg['fired'].values())} wall={wall:.1f}s "
           f"exit={exit_code}")
@@ -457,7 +520,9 @@ def aggregate(rows):
     steps = 0
     nops = 0
     faulty = 0
+    evals = 0
     for r in rows:
+        evals += r.get("evals", 1)
         for k, v in r.get("fired", {}).items():
             fired[k] = fired.get(k, 0) + v
         for k, v in r.get("configured", {}).items():
@@ -478,11 +543,14 @@ def aggregate(rows):
             "probes": dict(sorted(probes.items())),
             "counters": dict(sorted(counters.items())),
             "steps": steps, "nops": nops, "faulty_runs": faulty,
+            "evals": evals,
             "fault_free_runs": len(rows) - faulty,
             "distinct_nontrivial": len(fps)}
 
 
 def write_evidence(pid, tier, base_seed, mod, rows, agg, wall, nviol, extra):
+    if os.environ.get("SIMCKL_NO_EVIDENCE"):
+        return
     samples = []
     for r in rows:
         if "case" in r and len(samples) < 3:
@@ -496,7 +564,7 @@ def write_evidence(pid, tier, base_seed, mod, rows, agg, wall, nviol, extra):
         "seed": base_seed,
         "level": "exploration",
         "coverage": {
-            "evaluations": len(rows),
+            "evaluations": agg["evals"],
             "distinct_nontrivial": agg["distinct_nontrivial"],
             "rule": mod.RULE,
             "samples": samples,
